@@ -444,8 +444,8 @@ def model_output(case, out):
     tempos = [[_q(t), _q(q)] for t, q in tm]
     notes = sorted([[p, v, i, g, pi, _q(s), _q(e), n, d] for p, v, i, g, pi, s, e, n, d in ns],
                    key=lambda x: (x[0], x[1], x[4], round(x[5], 6), round(x[6], 6)))
-    from note_seq import musicxml_reader
-    chords = sorted([[_q(t), ''.join(chr(c) for c in f), int(musicxml_reader.CHORD_SYMBOL)] for t, f in ch],
+    from note_seq.protobuf import music_pb2
+    chords = sorted([[_q(t), ''.join(chr(c) for c in f), int(music_pb2.NoteSequence.TextAnnotation.CHORD_SYMBOL)] for t, f in ch],
                     key=lambda x: (round(x[0], 6), x[1]))
     return ['OK', tsigs, ksigs, tempos, notes, _q(total), chords]
 
@@ -802,8 +802,8 @@ def oracle(case, io):
         if not _same_times(exp_s, tsigs_c):
             return {'kind': 'time-signature-wrong', 'expected': [[float(a), b, c] for a, b, c in exp_s], 'got': tsigs}
     # --- chord symbols (root, kind, degrees, bass) at the times they occur
-    from note_seq import musicxml_reader
-    exp_c = [[t, f, int(musicxml_reader.CHORD_SYMBOL)] for s_ in state for t, f in s_['chords']]
+    from note_seq.protobuf import music_pb2
+    exp_c = [[t, f, int(music_pb2.NoteSequence.TextAnnotation.CHORD_SYMBOL)] for s_ in state for t, f in s_['chords']]
     got_c = list(chords)
     for t, f, ty in exp_c:
         hit = next((g for g in got_c if g[1] == f and g[2] == ty and _close(float(t), g[0])), None)
@@ -912,7 +912,7 @@ def _voice(total, div, voice, rng, p_rest=0.15, p_chord=0.25, forwards=False, p_
     return els
 
 
-_TEMPOS = ['120', '60', '90', '72.5', '100', '144', '48', '132', '200', '80', '66.6', '30', '240']
+_TEMPOS = ['120', '60', '90', '72.5', '100', '144', '48', '132', '200', '80', '66.6', '30', '240', '0', '120.0', '59.94']
 _DYADIC_T = ['120', '60', '240', '30', '480', '15']
 
 
